@@ -51,6 +51,9 @@ def ast_from_string(value: str) -> datetime.datetime | str:
     except ValueError as err:
         logging.warning('Failed to parse availabilityStartTime: %s', err)
         raise err
+    if not isinstance(value, datetime.datetime):
+        # e.g. a time of day or a duration
+        raise ValueError(f'Invalid availabilityStartTime "{value}"')
     return value
 
 def ast_to_string(value: datetime.datetime | str | None) -> str:
